@@ -50,6 +50,7 @@ func runC05(c *an.Ctx) {
 	ruleR12(c)
 	ruleR13(c)
 	ruleR14(c)
+	ruleR15(c)
 	ruleR7(c)
 	ruleR7Assume(c)
 }
